@@ -166,6 +166,9 @@ def mutate(data: bytes, op: str, args, self_name=None) -> bytes:
             return data
         m = toks[k]
         return data[: m.start()] + text.encode() + data[m.end():]
+    if op == "repeat":  # one chunk of a valid file repeated n times (many solids / objects / records)
+        a, b, n = args
+        return data[:a] + data[a:b] * int(n) + data[b:]
     if op == "tokcopy":  # token k takes the text of token j (ids pointing at other ids / at themselves)
         kind, k, j = args
         toks = tokens_of(data, kind)
